@@ -333,6 +333,9 @@ def c03_shapes(tier):
         shapes.append(('hx_pa_argfile', [0, 0], lab('c03/arg-file override', words), {'pa_tmpl': tmpl('ok', items, slots, words)}))
     for words, items in ((['-v', S(0), '--endvalues', S(1), '-e', S(2), '--endvalues', S(0)], ['v=7,#0', 'c=#2', 'fv=#1,#0']), (['-v', S(0), S(1), '--endvalues', S(2)], ['v=7,#0,#1', 'fv=#2'])):
         shapes.append(('hx_pa', [6, 2 | ((32 | 64) << 8)], lab('c03/endvalues', words), {'pa_tmpl': tmpl('ok', items, ['d1', 'd2', 'd2'], words)}))
+    for key, item in (('y', 'sa'), ('a', 'arr'), ('t', 'st')):
+        for words in (['-' + key, S(0) + ',' + S(1) + ',' + S(2)], ['--' + {'y': 'stdarr', 'a': 'arr', 't': 'set'}[key] + '=' + S(0) + ',' + S(1), '-' + key, S(2)]):
+            shapes.append(('hx_pa', [6, 1024 << 8], lab('c03/checked elements', words), {'pa_tmpl': tmpl('ok', ['%s=#0,#1,#2' % item], ['r2:10:39', 'r2:40:69', 'r2:70:99'], words)}))
     # full keys with abbreviations disabled
     for words, slots, items in ((['--number', S(0), '--flag'], ['d2'], ['n=#0', 'f=1']), (['--name=' + S(0)], ['s3'], ['s=$0'])):
         shapes.append(('hx_pa', [0, 1], lab('c03/noabbr', words), {'pa_tmpl': tmpl('ok', items, slots, words)}))
@@ -421,6 +424,14 @@ def c05_shapes(tier):
     for noabbr in (0, 1):
         for line in range(7):
             shapes.append(('hx_pa_subgroup', [noabbr, line], 'c05/subgroup/noabbr%d/line%d' % (noabbr, line)))
+    for mode in range(9):
+        shapes.append(('hx_pa_subgroup_dup', [mode, 0], 'c05/subgroup key clash/mode%d' % mode))
+    # consecutive long keys where the second is a prefix of the first one (and the other way round)
+    for perm in (0, 3, 5):
+        for words, items in ((['--in-file', S(0), '--in', S(1)], ['m=#0', 'n=#1']), (['--in-dir=' + S(0), '--in', S(1), '--in-file', S(2)], ['l=#0', 'n=#1', 'm=#2']), (['--output', S(0), '--in', S(1), '--in-d', S(2)], ['u=#0', 'n=#1', 'l=#2'])):
+            shapes.append(('hx_pa_order', [perm, 0], lab('c05/p%d/f0/consecutive' % perm, words), {'pa_tmpl': tmpl('ok', items, ['d1', 'd2', 'd3'], words)}))
+        shapes.append(('hx_pa_order', [perm, 0], 'c05/p%d/f0/consecutive/--in-file @0 --in- @1' % perm, {'pa_tmpl': tmpl('throw', [], ['d1', 'd2'], ['--in-file', S(0), '--in-', S(1)])}))
+        shapes.append(('hx_pa_order', [perm, 1], 'c05/p%d/f1/consecutive/--in-file @0 --in-f @1' % perm, {'pa_tmpl': tmpl('throw', [], ['d1', 'd2'], ['--in-file', S(0), '--in-f', S(1)])}))
     return shapes
 
 
@@ -595,6 +606,17 @@ def c07_shapes(tier):
                                       (['-f', '\x02', '-g', '-n', S(0)], ['d2'], ['f=1', 'g=1', 'n=#0'], 1), (['-o', S(0), '\x02', '-o', S(1)], ['d1', 'd2'], ['o=#1'], 0)):
         shapes.append(('hx_pa_argfile', [0, mode], lab('c07/arg-file+argv%d' % mode, words), {'pa_tmpl': tmpl('ok', items, slots, words)}))
     shapes.append(('hx_pa_argfile', [0, 0], 'c07/arg-file bad int', {'pa_tmpl': tmpl('throw', [], ['a2'], ['-n', S(0), '\x02', '-f'])}))
+    # the value list of a multi-value argument continues across file lines / from a file or the environment variable onto argv
+    MV = (32 | 64) << 8
+    R3 = ['r2:10:19', 'r2:20:29', 'r2:30:39']
+    for src, words, items in (('hx_pa_file', ['-v', S(0), S(1), '\x03', S(2)], ['v=7,#0,#1,#2']), ('hx_pa_file', ['-e', S(0), '\x03', S(1), '\x02', S(2), '-f'], ['c=#0,#1,#2', 'f=1']),
+                              ('hx_pa_argfile', ['-v', S(0), '\x02', S(1), S(2)], ['v=7,#0,#1,#2']), ('hx_pa_argfile', ['-e', S(0), '\x03', S(1), '\x02', S(2), '-f'], ['c=#0,#1,#2', 'f=1']),
+                              ('hx_pa_env', ['-v', S(0), S(1), '\x02', S(2), '-f'], ['v=7,#0,#1,#2', 'f=1'])):
+        shapes.append((src, [6, MV], lab('c07/multi-value across sources/' + src[6:], words), {'pa_tmpl': tmpl('ok', items, R3, words)}))
+    # environment variable values whose first character is not a dash: leading blank, quoted / escaped first word, a free value first
+    for words, slots, items, mode in ((['-n', S(0)], ['d2'], ['n=#0'], 1), (["'-n'", S(0), '-f'], ['d2'], ['n=#0', 'f=1'], 0), (['"--name"', S(0)], ['s2'], ['s=$0'], 0), (['\\-f', '-n', S(0)], ['d2'], ['f=1', 'n=#0'], 0)):
+        shapes.append(('hx_pa_env', [0, mode], lab('c07/env first character/m%d' % mode, words), {'pa_tmpl': tmpl('ok', items, slots, words)}))
+    shapes.append(('hx_pa_env', [6, 64 << 8], 'c07/env first character/free value first', {'pa_tmpl': tmpl('ok', ['fv=#0', 'f=1'], ['d2'], [S(0), '-f'])}))
     # override: the command line value wins, without a cardinality error
     shapes.append(('hx_pa_env', [0, 0], 'c07/env override', {'pa_tmpl': tmpl('ok', ['n=#1'], ['d2', 'd3'], ['-n', S(0), '\x02', '-n', S(1)])}))
     shapes.append(('hx_pa_env', [0, 0], 'c07/env override string', {'pa_tmpl': tmpl('ok', ['s=$1', 'f=1'], ['s2', 's3'], ['--name=' + S(0), '-f', '\x02', '-s', S(1)])}))
